@@ -128,6 +128,18 @@ class Ctx:
         self.assume(e if d else z3.Not(e))
         return d
 
+    def entails(self, e):
+        """True only if the current path condition provably implies e (quick check; False = don't know)."""
+        e = z3.simplify(lift(e))
+        if z3.is_true(e):
+            return True
+        sol = self.full if self.full is not None else self.feas
+        sol.push()
+        sol.add(z3.Not(e))
+        r = sol.check()
+        sol.pop()
+        return r == z3.unsat
+
     def choose(self, n, label='choice'):
         """Nondeterministic choice among n alternatives (explored exhaustively)."""
         for k in range(n - 1):
@@ -583,6 +595,10 @@ class SArr:
                 shape.append(y); ma.append(0); mb.append('id')
             elif concrete(y) == 1:
                 shape.append(x); ma.append('id'); mb.append(0)
+            elif Ctx.cur is not None and not Ctx.spec and concrete(y) is None and C().entails(y == 1):
+                shape.append(x); ma.append('id'); mb.append(0)
+            elif Ctx.cur is not None and not Ctx.spec and concrete(x) is None and C().entails(x == 1):
+                shape.append(y); ma.append(0); mb.append('id')
             else:
                 C().oblige('broadcast-shapes-agree', x == y, 'safety')
                 shape.append(x); ma.append('id'); mb.append('id')
